@@ -61,6 +61,9 @@ fn family(spec: &Spec) -> String {
     if let Some(c) = &spec.cancel {
         s.push_str(&format!("/cancel:{}", c.site));
     }
+    if spec.send_block.is_some() {
+        s.push_str("/send-not-writable");
+    }
     s
 }
 
@@ -201,8 +204,10 @@ fn replay(path: &std::path::Path) -> ! {
         "stop={:?} points={} polls={} virtual_time={:?} cancellations_fired={} stale_wakes_of_finished_tasks={} trace={:016x}",
         o.stop, o.points, o.polls, o.vtime, o.cancels, o.stale_wakes, o.trace
     );
-    println!("notes={:?}", o.notes);
-    if o.viol.is_empty() {
+    println!("poll_send calls={} refused(not writable)={} notes={:?}", o.send_calls, o.send_blocked, o.notes);
+    if o.stop == Stop::Unavailable {
+        println!("VERDICT: none (a listed deviation names an alternative that does not exist at its choice point; the execution was abandoned there)");
+    } else if o.viol.is_empty() {
         println!("VERDICT: all oracles hold on this execution");
     } else {
         for (s, w) in &o.viol {
@@ -221,15 +226,15 @@ pub fn main(args: &Args) -> ! {
     let dl = deadline(if thorough { 25 * 60 } else { 50 });
     let cx = Ctx { base: Instant::now(), agg: Mutex::new(Agg::default()) };
     let mut rep = Report::new("C18", args, "exploration");
-    let k_base = if thorough { 2 } else { 2 };
+    let k_base = 2;
     let k_var = if thorough { 2 } else { 1 };
     rep.rule = format!(
-        "E4: the real quinn crate runs on a harness Runtime/AsyncUdpSocket/AsyncTimer (single-threaded deterministic executor, virtual clock, in-memory network with 10 ms latency, no loss). A choice point is every executor step with >=1 ready task; default = poll the lowest-id ready task; alternatives: 0 = second ready task, 1 = highest-id ready task (needs >=3 ready), 2 = starve all ready tasks for one step and perform the next world event (datagram delivery / timer expiry). E2 enumerates every execution with <=k deviations (k={k_base} for the 4 base scenarios over the whole run{}, k={k_var} for every cancellation point and every handle-drop point). Cancellation points: every await site documented cancel-safe x every occurrence seen in the baseline x every n in 0..=min(polls,6) x (drop immediately | drop when next woken), plus 'every occurrence' variants. Handle-drop points: SendStream after i writes, RecvStream after j reads (with and without a cancelled pending read), last server Connection handle after j reads, last client Connection handle, Endpoint handle right after connect, Incoming dropped, SendStream after a cancelled pending write. An execution is non-trivial when its trace hash (sequence of task polls, datagram deliveries with content hash, timer firings) differs from the default-schedule baseline of its base scenario; distinct = distinct such hashes. Executions abandoned because a deviation named an unavailable alternative are not counted.",
+        "E4: the real quinn crate runs on a harness Runtime/AsyncUdpSocket/AsyncTimer (single-threaded deterministic executor, virtual clock, in-memory network with 10 ms latency, no loss). A choice point is every executor step with >=1 ready task; default = poll the lowest-id ready task; alternatives: 0 = second ready task, 1 = highest-id ready task (needs >=3 ready), 2 = starve all ready tasks for one step and perform the next world event (datagram delivery / timer expiry). E2 enumerates every execution with <=k deviations (k={k_base} for the 4 base scenarios over the whole run{}, k={k_var} for every cancellation point and every handle-drop point). Cancellation points: every await site documented cancel-safe x every occurrence seen in the baseline x every n in 0..=min(polls,6) x (drop immediately | drop when next woken), plus 'every occurrence' variants. Send back-pressure points: each poll_send call index of the baseline returns Pending once. Handle-drop points: SendStream after i writes, RecvStream after j reads (with and without a cancelled pending read), last server Connection handle after j reads, last client Connection handle, Endpoint handle right after connect, Incoming dropped, SendStream after a cancelled pending write. An execution is non-trivial when its trace hash (sequence of task polls, datagram deliveries with content hash, timer firings) differs from the default-schedule baseline of its base scenario; distinct = distinct such hashes. Executions abandoned because a deviation named an unavailable alternative are not counted.",
         if thorough { ", plus k=3 over the first 60 choice points" } else { "" }
     );
     rep.assumptions = vec![
         "task interleaving is at await (poll) granularity on one thread: data races inside a poll are out of scope".into(),
-        "UdpSender::poll_send is always ready (send back-pressure is not enumerated)".into(),
+        "send back-pressure: one poll_send call per execution reports 'not writable' (every call index of the baseline is tried); sustained back-pressure is not enumerated".into(),
         "the virtual network delivers every datagram in order after 10 ms; loss/reordering are covered by the protocol-core checks".into(),
         "TLS is the deterministic mock session of vx::mtls; idle timeout and keep-alive are off so that quiescence means 'nothing can ever happen again'".into(),
         "a lost wakeup is only observable if no unrelated later event re-polls the future before the world goes quiescent".into(),
@@ -387,6 +392,25 @@ pub fn main(args: &Args) -> ! {
     }
     rep.part("C_handle_drops", json!(part_c));
 
+    // ---- D. one refused send (socket not writable) at every poll_send call --------------------
+    let mut part_d = vec![];
+    for sc in SCENS {
+        let calls = base_out[&sc].send_calls;
+        let mut execs = 0u64;
+        let mut fired = 0u64;
+        for b in 0..calls {
+            let mut s = Spec::new(sc);
+            s.send_block = Some(b);
+            let t = explore_schedule(&cx, &s, 400, 0, k_var, dl);
+            capped_any |= t.capped;
+            execs += t.executions;
+            fired += 1;
+            all_hashes.entry(sc).or_default().extend(t.hashes.iter().copied());
+        }
+        part_d.push(json!({"scenario": sc.name(), "poll_send_calls_baseline": calls, "block_points": fired, "k": k_var, "executions": execs}));
+    }
+    rep.part("D_send_not_writable", json!(part_d));
+
     // ---- fold --------------------------------------------------------------------------------
     for (sc, hs) in &all_hashes {
         for h in hs {
@@ -399,6 +423,8 @@ pub fn main(args: &Args) -> ! {
         rep.exhaustive = false;
     }
     let mut agg = std::mem::take(&mut *cx.agg.lock().unwrap());
+    // every completed execution (the tallies above count the same executions part by part)
+    rep.evaluations = agg.completed;
     agg.viol.sort_by(|a, b| (a.0, &a.1, &a.2).cmp(&(b.0, &b.1, &b.2)));
     for (_, _, sig, what, replay) in agg.viol.drain(..) {
         rep.violation(Violation { signature: sig, what, replay });
